@@ -74,7 +74,7 @@ func (m *StreamMon) addWriter(t *simrt.Task) {
 			return
 		}
 	}
-	m.writers = append(m.writers, t)
+	m.writers = simrt.Push(m.writers, t)
 }
 
 func (m *StreamMon) feed(t *simrt.Task, b []byte) {
@@ -105,7 +105,7 @@ func (m *StreamMon) feed(t *simrt.Task, b []byte) {
 		if size < refcodec.HeaderLen || (m.MaxFrame > 0 && size > m.MaxFrame) {
 			m.LostSync = true
 			f := &FrameRec{Idx: len(m.Frames), Start: m.start, Size: size, Type: typ, Tag: tag, Class: refcodec.Malformed, Writers: m.writers, Step: simrt.Steps(), ReadAt: -1}
-			m.Frames = append(m.Frames, f)
+			m.Frames = simrt.Push(m.Frames, f)
 			if m.OnFrame != nil {
 				m.OnFrame(f)
 			}
@@ -122,7 +122,7 @@ func (m *StreamMon) feed(t *simrt.Task, b []byte) {
 		if m.KeepRaw {
 			f.Raw = append([]byte{}, m.buf...)
 		}
-		m.Frames = append(m.Frames, f)
+		m.Frames = simrt.Push(m.Frames, f)
 		m.start += int64(size)
 		m.buf = m.buf[:0]
 		m.writers = nil
@@ -156,15 +156,13 @@ type ConnMon struct {
 	Msize    uint32     // announced by the last Rversion (0 = none yet)
 	Findings []Finding
 	// inflight: tag -> request frame awaiting its reply
-	inflight map[uint16]*FrameRec
+	inflight simrt.PMap[uint16, *FrameRec]
 	// CheckReplies enables the C06 reply-matching oracle (server under test).
 	CheckReplies bool
 	// CheckReqMsize enables the client-side msize oracle (client under test).
 	CheckReqMsize bool
 	conn          *simnet.Conn
 	Unsolicited   int
-	// consumed bookkeeping for request attribution
-	lastReader map[*simrt.Task]*FrameRec
 	// OnReply is called for each reply frame after matching.
 	OnReply func(req, rep *FrameRec)
 	// OnRequestRead is called when a server task has consumed a whole request.
@@ -172,7 +170,7 @@ type ConnMon struct {
 }
 
 func NewConnMon(name string, c *simnet.Conn) *ConnMon {
-	m := &ConnMon{Name: name, conn: c, inflight: map[uint16]*FrameRec{}, lastReader: map[*simrt.Task]*FrameRec{}}
+	m := &ConnMon{Name: name, conn: c}
 	m.Req = &StreamMon{Name: name + ".req", KeepRaw: false}
 	m.Rep = &StreamMon{Name: name + ".rep", KeepRaw: false}
 	m.Req.OnFrame = m.onReq
@@ -184,7 +182,7 @@ func NewConnMon(name string, c *simnet.Conn) *ConnMon {
 
 func (m *ConnMon) find(prop, oracle, key, format string, args ...interface{}) {
 	f := Finding{Prop: prop, Oracle: oracle, Detail: m.Name + ": " + fmt.Sprintf(format, args...), Key: oracle + ":" + key}
-	m.Findings = append(m.Findings, f)
+	m.Findings = simrt.Push(m.Findings, f)
 	simrt.Event("VIOLATION %s", f)
 }
 
@@ -208,7 +206,7 @@ func (m *ConnMon) Consumed(p *simnet.Pipe, t *simrt.Task, n int) {
 	if f := m.Req.FrameEndingAt(p.Consumed()); f != nil {
 		f.Reader = t
 		f.ReadAt = simrt.Steps()
-		t.Local["req"] = f
+		t.Local.Set("req", f)
 		if m.OnRequestRead != nil {
 			m.OnRequestRead(f)
 		}
@@ -225,12 +223,12 @@ func (m *ConnMon) onReq(f *FrameRec) {
 	if m.CheckReqMsize && f.Class != refcodec.Exact {
 		m.find("C01", "request-layout", refcodec.TypeName(f.Type), "client emitted a frame that is not laid out per spec: %s", f)
 	}
-	if _, busy := m.inflight[f.Tag]; busy {
+	if m.inflight.Has(f.Tag) {
 		f.TagBusy = true
 		return
 	}
 	if f.Class == refcodec.Exact || f.Class == refcodec.Trailing || f.Class == refcodec.UnknownType || f.Class == refcodec.Malformed {
-		m.inflight[f.Tag] = f
+		m.inflight.Set(f.Tag, f)
 	}
 }
 
@@ -254,7 +252,7 @@ func (m *ConnMon) onRep(f *FrameRec) {
 	} else if f.Type == refcodec.TypeRversion && f.Msg != nil {
 		m.Msize = f.Msg.(*refcodec.Rversion).Msize
 	}
-	req := m.inflight[f.Tag]
+	req := m.inflight.Get(f.Tag)
 	if req == nil && f.Tag == refcodec.NoTag {
 		// reply to an undecodable frame: find the oldest undecodable request
 		for _, r := range m.Req.Frames {
@@ -271,7 +269,7 @@ func (m *ConnMon) onRep(f *FrameRec) {
 		}
 		return
 	}
-	delete(m.inflight, req.Tag)
+	m.inflight.Del(req.Tag)
 	req.Reply = f
 	req.NReplies++
 	if m.CheckReplies && req.Class == refcodec.Exact {
